@@ -1308,6 +1308,7 @@ class Interp:
                 nb.tags["pos_or_nan"] = True        # x[x <= 0] = nan : only positive multiples survive
                 nb.sign = "POS"
             nb.tags.pop("raw_quotient_by", None)         # some entries were overwritten: no longer the raw quotient
+            nb.tags.pop("affine_grid", None)
             nb.term = mk_term("stored", base.term, f.term)
             if isinstance(t.value, ast.Name):
                 fr.env[t.value.id] = nb
